@@ -27,6 +27,7 @@ THEOREMS = ['C15.quotes_table_ok', 'C15.bool_table_ok', 'C15.lists_table_ok', 'C
             'C15.socket_timeout_verdict', 'C15.socket_timeout_reject_atomic',
             'C15.validators_check_before_store', 'C15.guarded_verdict', 'C15.guarded_string_roundtrip', 'C15.only_some_strings_roundtrip',
             'C15.json_roundtrip', 'C15.float_roundtrip', 'C15.regexp_roundtrip',
+            'C15.call_fresh_noop', 'C15.call_reread_same',
             'C15.save_load_roundtrip', 'C15.save_load_counterexample', 'C15.rt_string', 'C15.rt_bool', 'C15.rt_int']
 TRUSTED = ['Lean 4.33.0 kernel; axioms ⊆ {propext, Classical.choice, Quot.sound}',
            'harness/extractors/registry.py (constants of src/registry.py, utils/str.py, class inventory → Gen/Registry.lean)',
@@ -1482,6 +1483,111 @@ def stream_corpus(I, R):
     finally:
         world.ircs[:] = saved
 
+
+# ------------------------------------------------------------------------------------------
+# lazy re-reading: open_registry in the running process (Config reload / SIGHUP)
+# ------------------------------------------------------------------------------------------
+def stream_lazy(I, R, r, n_hist, maxops=12):
+    world = I.world; reg = I.registry
+    saved_ircs = list(world.ircs)
+    world.ircs[:] = [_StubIrc(n) for n in NETS]
+    pr = PR(TREE_ALPHA + ''.join(HOT) + 'é中' + ''.join(map(chr, range(128, 0x300))))
+    try:
+        for h in range(n_hist):
+            k = r.choice(['bool', 'int', 'pos', 'plain', 'plain', 'normalized', 'surrounded', 'space', 'comma'])
+            kind = r.choice(['chan'] * 7 + ['net'] * 2 + ['global'])
+            default = tree_value(r, k, risky=0)
+            if k == 'comma' and not default: default = ['d']
+            I.reset_cache()
+            T = RealTree(I, k, kind, default)
+            lines = ['l_boot\t%s\t%s\t%s\t%s\t%s\t%s\t-' % (k, pr, enc_val(T.dflt), '1' if kind in ('chan', 'net') else '0',
+                                                       '1' if kind == 'chan' else '0', wire.enc('vt.var'))]
+            impl = ['up']; ops = []; tags = set(['lazy', 'lazy-' + k]); fails = []
+            probes = [p for p in PROBES if (kind == 'chan') or (kind == 'net' and p[1] is None) or p == (None, None)]
+            files = []
+            def probe(ps):
+                out = {}
+                for (pn, pc) in ps:
+                    res = T.get(pn, pc)
+                    lines.append('l_get\t%s\t%s\t1\t1' % (wire.enc_opt(pn), wire.enc_opt(pc))); impl.append(res); out[(pn, pc)] = res
+                return out
+            def pick_where():
+                if kind == 'global': return ('base',)
+                y = r.random(); n = r.choice(NETS + ['NETA']); c = r.choice(CHANS + ['#X'])
+                if kind == 'net': return ('base',) if y < 0.4 else ('net', n)
+                if y < 0.25: return ('base',)
+                if y < 0.5: return ('net', n)
+                if y < 0.75: return ('chan', c)
+                return ('netchan', n, c)
+            def do_save():
+                I.exceptions[:] = []
+                reg.close(T.root, I.fn)
+                text = open(I.fn, encoding='utf-8').read()
+                lines.append('l_save'); impl.append(wire.enc(''.join(l + '\n' for l in file_value_lines(text))))
+                return text
+            def do_reopen(text):
+                with open(I.fn, 'w', encoding='utf-8') as f: f.write(text)
+                reg.open_registry(I.fn)
+                lines.append('l_reopen\t%s\t0' % wire.enc(text)); impl.append('ok')
+            for step in range(r.randint(3, maxops)):
+                x = r.random()
+                if x < 0.30:
+                    w = pick_where(); text = tree_text(r, k)
+                    if not valid_unicode(text) or not tree_safe_text(k, text): continue
+                    res = T.set_text(w, text)
+                    ops.append(['set', list(w), text]); tags.add('lz-set-' + res)
+                    lines.append('l_set\t%s\t%s' % (wire.enc(text), enc_where(w))); impl.append(res)
+                elif x < 0.40:
+                    w = pick_where(); v = tree_value(r, k, risky=0)
+                    res = T.set_value(w, v)
+                    ops.append(['setv', list(w), v]); tags.add('lz-setv')
+                    lines.append('l_setv\t%s\t%s' % (enc_val(v), enc_where(w))); impl.append(res)
+                elif x < 0.48 and kind == 'chan':
+                    n = r.choice([None] + NETS); c = r.choice(CHANS)
+                    res = T.reset_chan(n, c)
+                    ops.append(['reset_chan', n, c]); tags.add('lz-reset-chan')
+                    lines.append('l_reset_chan\t%s\t%s' % (wire.enc_opt(n), wire.enc(c))); impl.append(res)
+                elif x < 0.54 and kind in ('chan', 'net'):
+                    n = r.choice(NETS)
+                    res = T.reset_net(n)
+                    ops.append(['reset_net', n]); tags.add('lz-reset-net')
+                    lines.append('l_reset_net\t%s' % wire.enc(n)); impl.append(res)
+                elif x < 0.68:
+                    ps = r.sample(probes, min(len(probes), r.randint(1, 3)))
+                    ops.append(['get', [list(p) for p in ps]]); tags.add('lz-get')
+                    probe(ps)
+                elif x < 0.80:
+                    ops.append(['save']); tags.add('lz-save')
+                    files.append(do_save())
+                elif x < 0.90 and files:
+                    text = r.choice(files)
+                    ops.append(['reopen', text]); tags.add('lz-reopen-old')
+                    do_reopen(text)
+                else:
+                    # save and re-read at once: nothing may change
+                    before = probe(probes)
+                    text = do_save(); files.append(text); do_reopen(text)
+                    after = probe(probes)
+                    ops.append(['save_reopen']); tags.add('lz-save-reopen')
+                    if after != before:
+                        diff = [(p, before[p], after[p]) for p in probes if before[p] != after[p]]
+                        fails.append('saving and re-reading the file in the running bot changed getSpecific: %r (file %r)' % (diff[:3], file_value_lines(text)))
+                lines.append('l_dump'); impl.append(T.enc_dump())
+            fid = _hist_risky(k, T, ops) if k in LIST_CLASSES else None
+            c = Case({'op': 'lazy', 'class': k, 'kind': kind, 'default': default, 'ops': ops}, impl='\n'.join(impl),
+                     oracle_ok=not fails, oracle_msg='; '.join(fails[:3]), kind='lazy', tags=sorted(tags), finding=fid if fails else None)
+            R.add_multi(c, lines, tree_post_lazy)
+    finally:
+        world.ircs[:] = saved_ircs
+
+def tree_post_lazy(outs, c, lines):
+    outs = list(outs)
+    for i, o in enumerate(outs):
+        if lines[i] == 'l_save' and o != 'bad-op':
+            try: outs[i] = wire.enc(''.join(l + '\n' for l in file_value_lines(wire.dec(o))))
+            except Exception: pass
+    return '\n'.join(outs)
+
 # ------------------------------------------------------------------------------------------
 # run / replay
 # ------------------------------------------------------------------------------------------
@@ -1499,6 +1605,7 @@ def explore(ctx, scale, seed_stream='c15'):
     stream_oracle_only(I, R, r, 1500 * scale)
     stream_validators(I, R, r, 1200 * scale)
     stream_tree(I, R, r, 250 * scale)
+    stream_lazy(I, R, r, 200 * scale)
     stream_live(I, R, r, 40 * min(scale, 10))
     stream_sweep(I, R, r, 6 if scale == 1 else 25)
     return I, R
